@@ -370,6 +370,35 @@ func c12Run(e *core.Env) {
 		}
 	}
 	rj(0)
+	// quotes with more than 8 decimals and quotes below 1e-8 through the command: the
+	// declared value itself enters the graph, only derived values are truncated
+	for _, p1 := range []string{"0.123456789", "8.1000000081000002049300004017600053815590", "0.000000004", "1.000000005"} {
+		for _, d1 := range []c12Decl{{"X", "V", p1}, {"V", "X", p1}} {
+			for _, d2 := range []*c12Decl{nil, {"Y", "X", "2"}, {"X", "Y", "2"}, {"Y", "X", p1}} {
+				if !e.Take() {
+					continue
+				}
+				body := []jr.Dir{jr.P(days[0], names[d1.Com], d1.Price, names[d1.Tgt])}
+				ds := []c12Decl{d1}
+				if d2 != nil {
+					body = append(body, jr.P(days[0], names[d2.Com], d2.Price, names[d2.Tgt]))
+					ds = append(ds, *d2)
+				}
+				pl := ref.NewLedger(body)
+				for _, c := range []string{"USD", "EUR"} {
+					if _, ok, _ := pl.PriceOn(ref.ParseISO(days[1]), "CHF", c); ok {
+						body = append(body, jr.T(days[1], "hold "+c, jr.B(accOpening, accCash, "1000", c)))
+					}
+				}
+				key, detail, _, _ := c03One(drv, body, ref.BalCfg{Valuation: "CHF"})
+				e.Count("evaluations")
+				e.Count("command_level_cases")
+				if key != "" {
+					e.Violation(strings.Replace(key, "C03:", "C12:command:long-quote:", 1), detail, c12Case{Decls: ds}, nil)
+				}
+			}
+		}
+	}
 	// several declarations for one pair on ONE day, in both directions: the one written last
 	// is the most recent one (every sequence of <= 3 | 4 over 6 declarations)
 	sameDay := []c12Decl{{"X", "V", "2"}, {"X", "V", "3"}, {"V", "X", "2"}, {"V", "X", "4"}, {"Y", "X", "5"}, {"Y", "X", "6"}}
